@@ -649,8 +649,10 @@ def _shapes_c13_6(tier):
         for second in ("honest", "rotated", "rotated-kept",
                        "other-suite", "client-expired", "psk-ke-only"):
             out.append(dict(auth=auth, second=second))
-        for k in range(8):
-            out.append(dict(auth=auth, second="ticket-byte", chunk=k))
+        nch, step = (8, 7) if tier == "quick" else (32, 1)
+        for k in range(nch):
+            out.append(dict(auth=auth, second="ticket-byte", chunk=k,
+                            chunks=nch, step=step))
     return out
 
 
@@ -733,8 +735,8 @@ def c13_6(I, shape):
     cset2 = P.settings13()
     sset2 = P.settings13(ticketKeys=[key1], ticket_count=1)
     if second == "ticket-byte":
-        step = 7 if shape.get("tier") != "thorough" else 1
-        cands = list(range(0, len(nst.ticket), 7))[shape["chunk"]::8]
+        cands = list(range(0, len(nst.ticket), shape.get("step", 7)))[
+            shape["chunk"]::shape.get("chunks", 8)]
         pos = I.pick(cands, "ticket_pos")
         v = I.byte("ticket_v")
         t = newbuf(list(nst.ticket))
@@ -855,8 +857,10 @@ def _shapes_c13_7(tier):
                 if version == (3, 1) and second not in ("honest", "unknown",
                                                         "ticket-byte"):
                     continue
-                out.append(dict(how=how, version=list(version),
-                                second=second))
+                d = dict(how=how, version=list(version), second=second)
+                if second == "ticket-byte" and tier != "quick":
+                    d["step"] = 2
+                out.append(d)
     # with an authenticated client: the resumed connection keeps its identity
     for how in ("id", "ticket"):
         out.append(dict(how=how, version=[3, 3], second="honest",
@@ -954,7 +958,8 @@ def c13_7(I, shape):
         sname2 = "other.example"
     elif second == "ticket-byte":
         tkt = sess.tls_1_0_tickets[0]
-        pos = I.pick(list(range(0, len(tkt.ticket), 9)), "ticket_pos")
+        pos = I.pick(list(range(0, len(tkt.ticket), shape.get("step", 9))),
+                     "ticket_pos")
         v = I.byte("ticket_v")
         t = newbuf(list(tkt.ticket))
         assume(v != t[pos])
